@@ -52,6 +52,12 @@ def _col_values(kind, nullmode, n, rng, extra):
             return True
         return rng.random() < 0.3
     nulls = [isnull(i) for i in range(n)]
+    if nullmode == 'some' and n:
+        # the writer infers the encoding of an object column from its first
+        # non-null values; a first batch without any would fix the column as
+        # raw bytes and later text batches would be refused (input-domain
+        # matter): keep row 0 non-null
+        nulls[0] = False
     if kind in ('i64', 'i32', 'u8', 'u16'):
         lo, hi = {'i64': (-2**62, 2**62), 'i32': (-2**31, 2**31 - 1),
                   'u8': (0, 255), 'u16': (0, 65535)}[kind]
